@@ -1,10 +1,25 @@
 # Claimed properties (executed by gen_manifest.py).
-claim("C14", "call-graph enumeration of process terminators with trigger classification (SSA dominance)",
-      "Decides the property's own static clause: every log.Fatal*/os.Exit/panic/must-style call site in library code is enumerated "
-      "and classified by the condition that dominates it; sites triggered by input or dependency errors are violations. "
-      "Panic-, hang- and memory-freedom for all inputs are not decided.", "DESIGN.md §4 C14")
+claim("C11", "CFG path-count, constant flag-set evaluation, value-flow slices and format-language evaluation over the two write twins and the read path",
+      "Decides the shape of the filesystem boundary that an in-memory filesystem cannot observe: exactly one Write per successful path and never two, "
+      "open flags O_WRONLY|O_CREATE without O_EXCL and O_APPEND iff the APPEND_WRITE edge was taken, buffer = LE32(attrs) ++ value, path from efivars dir/name/canonical GUID text, "
+      "short-write check, required.Equal(stored) gate dominating the decode, 4+rest read shape, argument mapping of WriteVar; identical rules on both twins. Kernel behaviour is not decided.",
+      "DESIGN.md §4 C11")
+claim("C12", "constant flag-set evaluation and table agreement between the in-memory store's strip list and the efivar definitions (SSA of the package initialiser)",
+      "Decides two necessary conditions of register semantics: old content is discarded on non-append rewrites (O_TRUNC/Create/Remove), and the descriptor is stripped exactly for the "
+      "authenticated variables from a fresh per-call buffer, with fresh buffers on the read path. Histories are not explored.", "DESIGN.md §4 C12")
+claim("C13", "VTA call-graph reachability of terminators with trigger classification; field-based input taint with dominating-guard (missing-check) rules; nil-optional dataflow",
+      "Decides, over everything reachable from the exported API of authenticode and pkcs7: no process terminator with a feasible trigger; every allocation / unsigned subtraction / "
+      "Truncate-Next-Grow / slice bound fed by input-derived values is dominated by a relating check; optional results are nil-checked before dereference. "
+      "General panic-, hang- and time-freedom are not decided.", "DESIGN.md §4 C13")
+claim("C14", "call-graph enumeration of process terminators with trigger classification; input taint with dominating-guard rules (T1-T5); nil-optional dataflow",
+      "Decides the property's own static clause (every log.Fatal*/os.Exit/panic/must-style site in library code, classified by the dominating condition) and the missing-check rules "
+      "for sizes, wraps, last-element and input-derived indexes in the variable decoders. Panic-, hang- and memory-freedom for all inputs are not decided.", "DESIGN.md §4 C14")
+claim("C15", "error-discipline dataflow at dependency call sites (failure-region reachability on the CFG), dominance of effects by success edges, terminator classification",
+      "Decides, for every call site of a caller-supplied signer / filesystem / image reader reachable from the listed operations: the error is not dropped, every return reachable "
+      "from the failure edge carries a non-nil error, no terminator is triggered by it, short writes are checked, and mutations/writes sit behind the success edge of signing. "
+      "It covers all fault positions at once but only the error-handling shape, not executed behaviour.", "DESIGN.md §4 C15")
 
 NA["C16"] = ("acceptance of third-party signatures depends on the bytes other tools emit at run time (attribute order/encoding "
              "chosen by OpenSSL/sbsign); the source holds no representation of them, so no structural condition beyond C04/C13 exists to check statically")
-for _i in ["C01","C02","C03","C04","C05","C06","C07","C08","C09","C10","C11","C12","C13","C15","C17","C18","C19"]:
+for _i in ["C01","C02","C03","C04","C05","C06","C07","C08","C09","C10","C17","C18","C19"]:
     NA.setdefault(_i, "rule set for this property not built yet in this round (see DESIGN.md Appendix C); no static verdict is claimed")
